@@ -328,6 +328,10 @@ class _JSONPipeCommunicator:
     def __enter__(self) -> Self:
         self._read_fd = os.open(self._read_pipe, os.O_RDONLY | os.O_NONBLOCK)
         self._write_fd = None
+        # Messages may be longer than the pipe can hold at once, so both the
+        # unsent part of a message and the part received so far are kept:
+        self._pending = b""
+        self._received = ""
         self._selector = selectors.DefaultSelector()
         self._selector.register(self._read_fd, selectors.EVENT_READ)
         return self
@@ -343,12 +347,14 @@ class _JSONPipeCommunicator:
         for _, mask in events:
             if mask & selectors.EVENT_READ:
                 with os.fdopen(os.dup(self._read_fd), "r", encoding="utf-8") as fd:
-                    buffer = ""
-                    while line := fd.readline():
-                        if line.strip() == self.DELIMITER:
-                            buffer = buffer.strip()
-                            return json.loads(buffer) if buffer else buffer
-                        buffer += line
+                    self._received += fd.read()
+                buffer, found, rest = self._received.partition(
+                    f"\n{self.DELIMITER}\n"
+                )
+                if found:
+                    self._received = rest
+                    buffer = buffer.strip()
+                    return json.loads(buffer) if buffer else buffer
         return None
 
     def write(self, data: str | list[Any] | dict[str, Any]) -> bool:
@@ -361,12 +367,17 @@ class _JSONPipeCommunicator:
         if self._write_fd is None:
             self._write_fd = os.open(self._write_pipe, os.O_WRONLY | os.O_NONBLOCK)
             self._selector.register(self._write_fd, selectors.EVENT_WRITE)
+        if not self._pending:
+            self._pending = (
+                f"{json.dumps(data, cls=NumpyEncoder)}\n{self.DELIMITER}\n".encode()
+            )
         events = self._selector.select(timeout=self._timeout)
         for _, mask in events:
             if mask & selectors.EVENT_WRITE:
-                os.write(
-                    self._write_fd,
-                    f"{json.dumps(data, cls=NumpyEncoder)}\n{self.DELIMITER}\n".encode(),
-                )
-                return True
+                # The pipe may accept only a part of the message, the callers
+                # repeat the call until the message has been sent completely:
+                with contextlib.suppress(BlockingIOError):
+                    written = os.write(self._write_fd, self._pending)
+                    self._pending = self._pending[written:]
+                return not self._pending
         return False
